@@ -103,16 +103,17 @@ type c12SelAt struct {
 
 type c12Monitor struct {
 	BaseMonitor
-	pre        *c12Snap
-	info       map[uint64]*c12Disp
-	byHash     map[string][]uint64
-	tips       map[string][]c12Tip
-	tipTotal   *big.Int
-	selHist    map[string][]c12SelAt
-	selChanged map[string]map[int64]bool
-	blockInfo  map[string]disputetypes.BlockInfo
-	counters   map[string]int64
-	infra      string
+	pre          *c12Snap
+	info         map[uint64]*c12Disp
+	byHash       map[string][]uint64
+	tips         map[string][]c12Tip
+	tipTotal     *big.Int
+	selHist      map[string][]c12SelAt
+	selChanged   map[string]map[int64]bool
+	blockInfo    map[string]disputetypes.BlockInfo
+	counters     map[string]int64
+	infra        string
+	paidFromBond map[string]bool // accounts that paid a dispute fee out of their bonded stake
 	// classification
 	acceptedVotes int
 	groups        map[string]bool
@@ -124,7 +125,7 @@ type c12Monitor struct {
 func c12NewMonitor() *c12Monitor {
 	return &c12Monitor{info: map[uint64]*c12Disp{}, byHash: map[string][]uint64{}, tips: map[string][]c12Tip{}, tipTotal: new(big.Int),
 		selHist: map[string][]c12SelAt{}, selChanged: map[string]map[int64]bool{}, blockInfo: map[string]disputetypes.BlockInfo{},
-		counters: map[string]int64{}, groups: map[string]bool{}, pairs: map[string]bool{}, classes: map[string]bool{}}
+		paidFromBond: map[string]bool{}, counters: map[string]int64{}, groups: map[string]bool{}, pairs: map[string]bool{}, classes: map[string]bool{}}
 }
 
 // viol returns a violation unless its signature is a recorded finding (then it is counted and the history goes on).
@@ -503,6 +504,13 @@ func (m *c12Monitor) After(c *Chain, w *World, br *BlockResult, outs []TxOutcome
 				}
 			case *disputetypes.MsgAddFeeToDispute:
 				funded[msg.DisputeId] = true
+				if msg.PayFromBond {
+					m.paidFromBond[string(c12Addr(msg.Creator))] = true
+				}
+			case *disputetypes.MsgProposeDispute:
+				if msg.PayFromBond {
+					m.paidFromBond[string(c12Addr(msg.Creator))] = true
+				}
 			case *disputetypes.MsgVote:
 				if records == nil {
 					records = c12ReadRecords(c)
@@ -740,6 +748,15 @@ func (m *c12Monitor) After(c *Chain, w *World, br *BlockResult, outs []TxOutcome
 						}
 						// same mechanism across disputes: a reporter slashed by an EARLIER dispute (its stake left the bonded
 						// total before this dispute's snapshot) still votes here with the stake recorded at its last report
+						// and for a reporter that paid a dispute fee out of its stake after its last report: the payment left the
+						// bonded total, the stake record of the last report still contains it
+						if sig == "C12/vote-counts/exceeds-group-total/reporters" {
+							for vk, v := range d.voters {
+								if m.paidFromBond[vk] || m.paidFromBond[v.reporter] {
+									sig = "C12/vote-counts/exceeds-group-total/reporters/fee-payer-from-stake-votes-with-pre-payment-stake"
+								}
+							}
+						}
 						if sig == "C12/vote-counts/exceeds-group-total/reporters" {
 							for od, other := range post.disputes {
 								if od == id || other.DisputeStatus == disputetypes.Prevote || other.BlockNumber > post.disputes[id].BlockNumber {
